@@ -298,6 +298,16 @@ Proof.
 Qed.
 End Progression.
 
+Lemma prog_sorted_nonneg (off d : Q) (k : nat) : 0 <= d ->
+  StronglySorted Qle (map (fun i : nat => off + d * inject_Z (Z.of_nat i)) (seq 0 k)).
+Proof.
+  intros Hd. generalize 0%nat. induction k as [|k' IH]; intros s; [constructor|].
+  cbn [seq map]. constructor; [apply IH|]. apply Forall_forall. intros q Hq.
+  apply in_map_iff in Hq as (i & E & Hi). apply in_seq in Hi. subst q.
+  assert (H : inject_Z (Z.of_nat s) <= inject_Z (Z.of_nat i)) by (rewrite <- Zle_Qle; lia).
+  assert (H2 : d * inject_Z (Z.of_nat s) <= d * inject_Z (Z.of_nat i)) by (rewrite !(Qmult_comm d); apply Qmult_le_compat_r; lra). lra.
+Qed.
+
 Lemma inject_Z_minus (x y : Z) : inject_Z (x - y) = inject_Z x - inject_Z y.
 Proof. unfold Z.sub, Qminus. now rewrite inject_Z_plus, inject_Z_opp. Qed.
 
@@ -471,4 +481,665 @@ Proof.
     fold ptrs in H. fold walk in H. rewrite Ew in H. rewrite Ecount. split; [exact H|].
     intros Hz. assert (E0 : nth i p 0 * inject_Z (Z.of_nat k) / sumQ p == 0) by (rewrite Hz; field; lra).
     rewrite (Qceiling_comp _ _ E0) in H. change (Qceiling 0) with 0%Z in H. lia.
+Qed.
+
+(** * 4. outcross_shuffle *)
+Local Open Scope Z_scope.
+
+Lemma swap_length i j x : length (swap i j x) = length x.
+Proof. unfold swap. now rewrite map_length, seq_length. Qed.
+
+Lemma swap_Permutation i j x : (x = [] \/ (i < length x /\ j < length x))%nat -> Permutation (swap i j x) x.
+Proof.
+  intros [E|[Hi Hj]]; [subst; constructor|].
+  unfold swap.
+  rewrite (map_ext _ (fun t => nth ((fun t => if Nat.eqb t i then j else if Nat.eqb t j then i else t) t) x 0)).
+  - apply reindex_Permutation.
+    + intros t Ht. destruct (Nat.eqb_spec t i), (Nat.eqb_spec t j); lia.
+    + intros t u Ht Hu. destruct (Nat.eqb_spec t i), (Nat.eqb_spec t j), (Nat.eqb_spec u i), (Nat.eqb_spec u j); lia.
+  - intros t. destruct (Nat.eqb t i); [reflexivity|]. destruct (Nat.eqb t j); reflexivity.
+Qed.
+
+Lemma dups_nonneg row : 0 <= dups row.
+Proof.
+  unfold dups. assert (length (nodup Z.eq_dec row) <= length row)%nat; [|lia].
+  apply NoDup_incl_length; [apply NoDup_nodup|]. intros a Ha. now apply nodup_In in Ha.
+Qed.
+
+Lemma sumZ_nonneg l : Forall (fun z => 0 <= z) l -> 0 <= sumZ l.
+Proof. induction 1 as [|z l Hz _ IH]; [cbn; lia|]. cbn [sumZ fold_right]. fold (sumZ l). lia. Qed.
+
+Lemma score_nonneg m x : 0 <= score m x.
+Proof.
+  unfold score. apply sumZ_nonneg. apply Forall_forall. intros z Hz. apply in_map_iff in Hz as (r & E & _).
+  subst. apply dups_nonneg.
+Qed.
+
+(** what the for loop over the exchanges finds *)
+Lemma first_improving_some m x best pairs x' s : first_improving m x best pairs = Some (x', s) ->
+  exists i j, In (i, j) pairs /\ x' = swap i j x /\ s = score m x' /\ s < best.
+Proof.
+  induction pairs as [|[i j] t IH]; [discriminate|]. cbn [first_improving].
+  destruct (Z.ltb_spec (score m (swap i j x)) best) as [L|G].
+  - intros E. injection E as E1 E2. subst. exists i, j. repeat split; [now left | exact L].
+  - intros E. destruct (IH E) as (i' & j' & Hin & Hr). exists i', j'. split; [now right | exact Hr].
+Qed.
+
+Lemma first_improving_none m x best pairs : first_improving m x best pairs = None ->
+  forall i j, In (i, j) pairs -> best <= score m (swap i j x).
+Proof.
+  induction pairs as [|[i j] t IH]; [intros _ i j []|]. cbn [first_improving].
+  destruct (Z.ltb_spec (score m (swap i j x)) best) as [L|G]; [discriminate|].
+  intros E i' j' [Hin|Hin]; [injection Hin as <- <-; exact G | now apply IH].
+Qed.
+
+Definition valid_pair (N : nat) (ij : nat * nat) : Prop := (N = 0 \/ (fst ij < N /\ snd ij < N))%nat.
+
+Lemma permute_valid N pm exch : Forall (valid_pair N) exch -> Forall (valid_pair N) (permute (0%nat, 0%nat) pm exch).
+Proof.
+  intros H. unfold permute. apply Forall_forall. intros ij Hij. apply in_map_iff in Hij as (t & E & _). subst.
+  destruct (Nat.lt_ge_cases t (length exch)) as [L|G].
+  - rewrite Forall_forall in H. apply H, nth_In, L.
+  - rewrite nth_overflow by exact G. unfold valid_pair. cbn. lia.
+Qed.
+
+Lemma all_pairs_valid N : Forall (valid_pair N) (all_pairs N).
+Proof.
+  apply Forall_forall. intros [i j] H. unfold all_pairs in H. apply in_flat_map in H as (i' & Hi & Hj).
+  apply in_map_iff in Hj as (j' & E & Hj'). injection E as <- <-. apply in_seq in Hi, Hj'. right. cbn. lia.
+Qed.
+
+Lemma all_pairs_complete N i j : (i < j < N)%nat -> In (i, j) (all_pairs N).
+Proof.
+  intros H. unfold all_pairs. apply in_flat_map. exists i. split; [apply in_seq; lia|].
+  apply in_map. apply in_seq. lia.
+Qed.
+
+(** the descent loop: multiset, monotonicity, number of passes *)
+Lemma loop_spec pms : forall m x exch best n y n',
+  outcross_loop pms m x exch best n = Some (y, n') ->
+  best = score m x -> Forall (valid_pair (length x)) exch ->
+  Permutation y x /\ score m y <= score m x /\ (n' <= n + Z.to_nat best + 1)%nat /\ (n < n')%nat.
+Proof.
+  induction pms as [|pm rest IH]; intros m x exch best n y n' H Hb Hv; [discriminate|].
+  cbn [outcross_loop] in H.
+  pose proof (permute_valid _ pm _ Hv) as Hv'.
+  destruct (first_improving m x best (permute (0%nat, 0%nat) pm exch)) as [[x' s]|] eqn:Ef.
+  - destruct (first_improving_some _ _ _ _ _ _ Ef) as (i & j & Hin & Ex & Es & Hlt).
+    assert (Px : Permutation x' x).
+    { subst x'. apply swap_Permutation. rewrite Forall_forall in Hv'. specialize (Hv' _ Hin). unfold valid_pair in Hv'. cbn in Hv'.
+      destruct Hv' as [E0|Hr]; [left; now apply length_zero_iff_nil | right; exact Hr]. }
+    assert (Lx : length x' = length x) by (subst x'; apply swap_length).
+    destruct (IH m x' _ s (S n) y n' H Es) as (P1 & P2 & P3 & P4); [rewrite Lx; exact Hv'|].
+    pose proof (score_nonneg m x'). repeat split.
+    + now transitivity x'.
+    + lia.
+    + lia.
+    + lia.
+  - injection H as <- <-. pose proof (score_nonneg m x). repeat split; [reflexivity | lia | lia | lia].
+Qed.
+
+Theorem outcross_sound m x pms y n : outcross m x pms = Some (y, n) ->
+  Permutation y x /\ score m y <= score m x /\ (1 <= n <= Z.to_nat (score m x) + 1)%nat.
+Proof.
+  unfold outcross. intros H. destruct (loop_spec _ _ _ _ _ _ _ _ H eq_refl (all_pairs_valid _)) as (P1 & P2 & P3 & P4).
+  repeat split; [exact P1 | exact P2 | lia | lia].
+Qed.
+
+(** the oracle is long enough whenever it has more entries than the initial number of repeats *)
+Lemma loop_terminates pms : forall m x exch best n, best = score m x ->
+  (Z.to_nat best < length pms)%nat -> exists r, outcross_loop pms m x exch best n = Some r.
+Proof.
+  induction pms as [|pm rest IH]; intros m x exch best n Hb Hl; [cbn in Hl; lia|].
+  cbn [outcross_loop].
+  destruct (first_improving m x best (permute (0%nat, 0%nat) pm exch)) as [[x' s]|] eqn:Ef.
+  - destruct (first_improving_some _ _ _ _ _ _ Ef) as (i & j & _ & _ & Es & Hlt).
+    apply IH; [exact Es|]. pose proof (score_nonneg m x'). cbn [length] in Hl. lia.
+  - eexists. reflexivity.
+Qed.
+
+Theorem outcross_terminates m x pms : (Z.to_nat (score m x) < length pms)%nat -> exists r, outcross m x pms = Some r.
+Proof. intros H. unfold outcross. now apply loop_terminates. Qed.
+
+(** it stops only at a local optimum of the 2-exchange neighbourhood (for genuine permutations of the exchange list) *)
+Lemma loop_local_opt pms : forall m x exch best n y n',
+  outcross_loop pms m x exch best n = Some (y, n') -> best = score m x ->
+  Permutation exch (all_pairs (length x)) ->
+  Forall (fun pm => Permutation pm (seq 0 (length (all_pairs (length x))))) pms ->
+  forall i j, (i < j < length y)%nat -> score m y <= score m (swap i j y).
+Proof.
+  induction pms as [|pm rest IH]; intros m x exch best n y n' H Hb Hex Hpms i j Hij; [discriminate|].
+  cbn [outcross_loop] in H. pose proof (Forall_inv Hpms) as Hpm. pose proof (Forall_inv_tail Hpms) as Hrest. cbn beta in Hpm.
+  assert (Hex' : Permutation (permute (0%nat, 0%nat) pm exch) (all_pairs (length x))).
+  { transitivity exch; [|exact Hex]. apply permute_Permutation. now rewrite (Permutation_length Hex). }
+  destruct (first_improving m x best (permute (0%nat, 0%nat) pm exch)) as [[x' s]|] eqn:Ef.
+  - destruct (first_improving_some _ _ _ _ _ _ Ef) as (i' & j' & _ & Ex & Es & _).
+    assert (Lx : length x' = length x) by (subst x'; apply swap_length).
+    apply (IH m x' _ s (S n) y n' H Es); [now rewrite Lx | now rewrite Lx | exact Hij].
+  - injection H as <- <-. rewrite <- Hb. apply (first_improving_none _ _ _ _ Ef).
+    eapply Permutation_in; [symmetry; exact Hex' | now apply all_pairs_complete].
+Qed.
+
+Theorem outcross_local_optimum m x pms y n :
+  Forall (fun pm => Permutation pm (seq 0 (length (all_pairs (length x))))) pms ->
+  outcross m x pms = Some (y, n) ->
+  forall i j, (i < j < length y)%nat -> score m y <= score m (swap i j y).
+Proof.
+  intros Hpms H. unfold outcross in H. eapply loop_local_opt; eauto.
+Qed.
+
+(** * 2. tiled_choice *)
+Local Open Scope nat_scope.
+
+Lemma count_nat_app i l l' : count_nat i (l ++ l') = count_nat i l + count_nat i l'.
+Proof. unfold count_nat. apply count_occ_app. Qed.
+
+Lemma tiles_count n q i : i < n -> count_nat i (concat (repeat (seq 0 n) q)) = q.
+Proof.
+  intros Hi. induction q as [|q IH]; [reflexivity|]. cbn [repeat concat]. rewrite count_nat_app, IH.
+  unfold count_nat. rewrite (proj1 (NoDup_count_occ' Nat.eq_dec (seq 0 n)) (seq_NoDup n 0) i); [reflexivity|].
+  apply in_seq. lia.
+Qed.
+
+Lemma tiles_length n q : length (concat (repeat (seq 0 n) q)) = q * n.
+Proof. induction q as [|q IH]; [reflexivity|]. cbn [repeat concat]. rewrite app_length, seq_length, IH. lia. Qed.
+
+Definition count_z (v : Z) (l : list Z) : nat := count_occ Z.eq_dec l v.
+
+Lemma labels_count (a : list Z) (sel : list nat) i : NoDup a -> i < length a -> Forall (fun t => t < length a) sel ->
+  count_z (nth i a 0%Z) (take_labels a sel) = count_nat i sel.
+Proof.
+  intros Hnd Hi Hs. unfold count_z, count_nat, take_labels, gather. induction sel as [|t sel IH]; [reflexivity|].
+  inversion Hs as [|? ? Ht Hs']; subst. cbn [map count_occ]. rewrite (IH Hs').
+  destruct (Z.eq_dec (nth t a 0%Z) (nth i a 0%Z)) as [E|NE], (Nat.eq_dec t i) as [E'|NE']; try reflexivity.
+  - exfalso. apply NE'. eapply NoDup_nth; eauto.
+  - exfalso. apply NE. now subst.
+Qed.
+
+(** without replacement every option is used q or q+1 times, q+1 exactly for the options of the remainder draw *)
+Theorem tiled_even (n nsample : nat) (choice perm : list nat) :
+  0 < n -> NoDup choice -> Forall (fun t => t < n) choice -> length choice = nsample mod n ->
+  Permutation perm (seq 0 nsample) ->
+  exists sel, tiled_sel n nsample choice perm = Some sel /\ length sel = nsample /\
+    Forall (fun t => t < n) sel /\
+    forall i, i < n -> count_nat i sel = nsample / n + count_nat i choice /\ count_nat i choice <= 1.
+Proof.
+  intros Hn Hnd Hr Hl Hperm.
+  assert (Lix : length (tiled_ix n nsample choice) = nsample).
+  { unfold tiled_ix. rewrite app_length, tiles_length, Hl. pose proof (Nat.div_mod nsample n ltac:(lia)). lia. }
+  exists (permute 0 perm (tiled_ix n nsample choice)).
+  assert (Pp : Permutation (permute 0 perm (tiled_ix n nsample choice)) (tiled_ix n nsample choice)).
+  { apply permute_Permutation. now rewrite Lix. }
+  assert (Rix : Forall (fun t => t < n) (tiled_ix n nsample choice)).
+  { unfold tiled_ix. apply Forall_app. split; [|exact Hr]. apply Forall_forall. intros t Ht.
+    apply in_concat in Ht as (l & Hl' & Ht). apply repeat_spec in Hl'. subst. apply in_seq in Ht. lia. }
+  split; [|split; [|split]].
+  - unfold tiled_sel. destruct (Nat.eqb_spec n 0); [lia|]. rewrite Lix, Nat.eqb_refl. reflexivity.
+  - rewrite permute_length. rewrite (Permutation_length Hperm). apply seq_length.
+  - eapply Permutation_Forall; [symmetry; exact Pp | exact Rix].
+  - intros i Hi. rewrite (count_nat_Permutation i _ _ Pp). unfold tiled_ix. rewrite count_nat_app, tiles_count by exact Hi.
+    split; [reflexivity|]. unfold count_nat. now apply NoDup_count_occ.
+Qed.
+
+(** * the binary64 instance of the walk *)
+From Coq Require Import PrimFloat.
+Local Open Scope Q_scope.
+
+Lemma sus_f_count (p : list float) order k off perm : p <> [] -> (0 < k)%nat -> length perm = k ->
+  length order = length p ->
+  exists sel, sus_f p order k off perm = Some sel /\ length sel = k.
+Proof.
+  intros Hp Hk Hl Ho. unfold sus_f. rewrite sus_finish_some.
+  - eexists. split; [reflexivity|]. now rewrite permute_length.
+  - rewrite map_length. unfold gather. destruct order as [|o os]; [destruct p; [congruence | discriminate]|].
+    cbn [map fcumsum length]. lia.
+  - exact Hk.
+Qed.
+
+(** if every binary64 pointer falls into the same cell as the ideal pointer (and the cumulative sums are exact),
+    the binary64 walk is the ideal walk *)
+Lemma Forall2_map_eq {A B} (f : A -> B) l l' : Forall2 (fun a b => f a = f b) l l' -> map f l = map f l'.
+Proof. induction 1 as [|a b l l' E _ IH]; [reflexivity|]. cbn [map]. now rewrite E, IH. Qed.
+
+Lemma locate_Qeq cs : forall cs' p, Forall2 Qeq cs cs' -> locate cs p = locate cs' p.
+Proof.
+  induction cs as [|c t IH]; intros cs' p H; inversion H as [|? c' ? t' Ec Ht]; subst; [reflexivity|].
+  destruct t as [|c2 t2]; inversion Ht as [|? c2' ? t2' Ec2 Ht2]; subst; [reflexivity|].
+  rewrite !locate_cons2. rewrite (Qleb_comp c c' Ec p p (Qeq_refl p)). now rewrite (IH (c2' :: t2') p Ht).
+Qed.
+
+Lemma sus_f_partial (p : list float) order k off perm :
+  let pq := map f2q p in
+  let cs := cumsum (gather 0 pq order) in
+  Forall2 Qeq (map f2q (fcumsum (gather 0%float p order))) cs ->
+  (0 < k)%nat -> 0 <= sumQ pq / inject_Z (Z.of_nat k) ->
+  StronglySorted Qle (map f2q (sus_ptrs_f (fsum p) k off)) ->
+  Forall2 (fun a b => locate cs a = locate cs b) (map f2q (sus_ptrs_f (fsum p) k off)) (sus_ptrs_q (sumQ pq) k (f2q off)) ->
+  sus_f p order k off perm = sus_q pq order k (f2q off) perm.
+Proof.
+  intros pq cs Ecs Hk Hd Hs Hsame. unfold sus_f, sus_q. fold pq. fold cs.
+  set (csf := map f2q (fcumsum (gather 0%float p order))) in *.
+  unfold sus_finish. destruct (Nat.eqb k 0); [destruct csf, cs; try reflexivity; inversion Ecs|].
+  assert (W : sus_walk csf 0 (map f2q (sus_ptrs_f (fsum p) k off)) = sus_walk cs 0 (sus_ptrs_q (sumQ pq) k (f2q off))).
+  { rewrite !walk_locate; [| | exact Hs].
+    - cbn [plus]. rewrite (map_ext _ (locate cs)) by (intros a; now apply locate_Qeq). now apply Forall2_map_eq.
+    - apply (prog_sorted_nonneg (f2q off) (sumQ pq / inject_Z (Z.of_nat k)) k Hd). }
+  destruct csf, cs; try reflexivity; try (inversion Ecs; fail). now rewrite W.
+Qed.
+
+(** a position of zero weight (its cumulative weight equals the previous one) is never selected, provided — when it is the
+    last position — every pointer stays strictly below the total; this is exactly what the rounded last pointer violates *)
+Lemma walk_zero_cell cs ptrs j : StronglySorted Qle cs -> StronglySorted Qle ptrs -> (1 <= j < length cs)%nat ->
+  nth j cs 0 == nth (j - 1) cs 0 ->
+  (j = (length cs - 1)%nat -> Forall (fun p => p < nth j cs 0) ptrs) ->
+  count_nat j (sus_walk cs 0 ptrs) = 0%nat.
+Proof.
+  intros Hc Hp Hj Ez Hlast. rewrite walk_count by (try assumption; lia).
+  assert (E : filter (in_cell cs j) ptrs = []); [|now rewrite E].
+  assert (F : forall p, In p ptrs -> in_cell cs j p = false);
+    [|clear - F; induction ptrs as [|q l IH]; [reflexivity|]; cbn [filter]; rewrite (F q (or_introl eq_refl)); apply IH; intros; apply F; now right].
+  intros p Hin. unfold in_cell. destruct (Nat.eqb_spec j 0) as [|_]; [lia|]. cbn [orb].
+  destruct (Qle_bool (nth (j - 1) cs 0) p) eqn:E1; [|reflexivity]. cbn [andb].
+  apply Qle_bool_iff in E1.
+  destruct (Nat.eqb_spec j (length cs - 1)) as [El|Nl]; cbn [orb].
+  - exfalso. specialize (Hlast El). rewrite Forall_forall in Hlast. specialize (Hlast p Hin). lra.
+  - apply negb_false_iff. apply Qle_bool_iff. lra.
+Qed.
+
+(** ** counterexamples by computation *)
+Ltac qle := apply Qle_bool_iff; vm_compute; reflexivity.
+Ltac qlt := apply Qlt_alt; vm_compute; reflexivity.
+
+(** binary64 pointers: p = [1,1], k = 98, offset 0.0 — 49*fl(1/49) < 1, so the element sorted first gets 50 draws *)
+Lemma sus_f_floor_ceil_refuted :
+  exists (p : list float) (order : list nat) (k : nat) (off : float) (perm sel : list nat) (i : nat),
+    Forall (fun x => 0 <= f2q x) p /\ 0 < sumQ (map f2q p) /\ Permutation order (seq 0 (length p)) /\ (0 < k)%nat /\
+    0 <= f2q off /\ f2q off < sumQ (map f2q p) / inject_Z (Z.of_nat k) /\ PrimFloat.ltb off (sus_dist_f (fsum p) k) = true /\
+    Permutation perm (seq 0 k) /\ sus_f p order k off perm = Some sel /\ (i < length p)%nat /\
+    (Qceiling (nth i (map f2q p) 0 * inject_Z (Z.of_nat k) / sumQ (map f2q p))%Q < Z.of_nat (count_nat i sel))%Z.
+Proof.
+  exists [1%float; 1%float], [1%nat; 0%nat], 98%nat, 0%float, (seq 0 98).
+  eexists. exists 1%nat.
+  split; [repeat constructor; qle|]. split; [qlt|]. split; [apply perm_swap|]. split; [lia|].
+  split; [qle|]. split; [qlt|]. split; [vm_compute; reflexivity|]. split; [reflexivity|].
+  split; [vm_compute; reflexivity|]. split; [cbn; lia|]. vm_compute. reflexivity.
+Qed.
+
+(** binary64 pointers: p = [2.5,1,0], k = 4, offset = pred(0.875) = 0.875*(1-2^-53) — the last pointer rounds up to
+    the total 3.5 and the zero-weight element is selected *)
+Lemma sus_f_zero_weight_refuted :
+  exists (p : list float) (order : list nat) (k : nat) (off : float) (perm sel : list nat) (i : nat),
+    Forall (fun x => 0 <= f2q x) p /\ 0 < sumQ (map f2q p) /\ Permutation order (seq 0 (length p)) /\ (0 < k)%nat /\
+    0 <= f2q off /\ f2q off < sumQ (map f2q p) / inject_Z (Z.of_nat k) /\ PrimFloat.ltb off (sus_dist_f (fsum p) k) = true /\
+    Permutation perm (seq 0 k) /\ sus_f p order k off perm = Some sel /\ (i < length p)%nat /\
+    nth i (map f2q p) 0 == 0 /\ (0 < count_nat i sel)%nat.
+Proof.
+  exists [2.5%float; 1%float; 0%float], [0%nat; 1%nat; 2%nat], 4%nat, (0x1.bffffffffffffp-1)%float, (seq 0 4).
+  eexists. exists 2%nat.
+  split; [repeat constructor; qle|]. split; [qlt|]. split; [reflexivity|]. split; [lia|].
+  split; [qle|]. split; [qlt|]. split; [vm_compute; reflexivity|]. split; [reflexivity|].
+  split; [vm_compute; reflexivity|]. split; [cbn; lia|]. split; [vm_compute; reflexivity|]. vm_compute. lia.
+Qed.
+
+(** the code before commit 2efef9f2: strict comparison, offset 0 — p = [1,1], k = 2 selects the first element twice *)
+Lemma sus_old_offset0_refuted :
+  exists (p : list Q) (k : nat) (off : Q) (sel : list nat),
+    Forall (fun x => 0 <= x) p /\ 0 < sumQ p /\ (0 < k)%nat /\ 0 <= off /\ off < sumQ p / inject_Z (Z.of_nat k) /\
+    old_walk (cumsum p) 0 (sus_ptrs_q (sumQ p) k off) = Some sel /\
+    (Qceiling (nth 0 p 0 * inject_Z (Z.of_nat k) / sumQ p)%Q < Z.of_nat (count_nat 0 sel))%Z.
+Proof.
+  exists [1; 1], 2%nat, 0, [0%nat; 0%nat].
+  split; [repeat constructor; qle|]. split; [qlt|]. split; [lia|]. split; [qle|]. split; [qlt|].
+  split; vm_compute; reflexivity.
+Qed.
+
+(** the code before commit 2efef9f2: numpy.arange(offset, tot, ptr_dist) has 3 elements for tot = 3.5, k = 4, offset = pred(0.875) *)
+Lemma sus_old_arange_refuted :
+  exists (tot : float) (k : nat) (off : float),
+    PrimFloat.leb 0%float off = true /\ PrimFloat.ltb off (sus_dist_f tot k) = true /\
+    arange_len_f off tot (sus_dist_f tot k) <> Z.of_nat k.
+Proof.
+  exists 3.5%float, 4%nat, (0x1.bffffffffffffp-1)%float. repeat split; try (vm_compute; reflexivity).
+  vm_compute. discriminate.
+Qed.
+
+(** * 3. axis_shuffle *)
+Local Open Scope nat_scope.
+
+Fixpoint valid_idx (shape idx : list nat) : Prop :=
+  match shape, idx with
+  | [], [] => True
+  | d :: sh, i :: ix => i < d /\ valid_idx sh ix
+  | _, _ => False
+  end.
+
+Lemma unravel_valid shape : forall t, t < prodn shape -> valid_idx shape (unravel shape t).
+Proof.
+  induction shape as [|d rest IH]; intros t Ht; [exact I|].
+  cbn [unravel valid_idx]. cbn [prodn fold_right] in Ht. fold (prodn rest) in Ht.
+  assert (HP : prodn rest <> 0) by (intros E; rewrite E in Ht; lia).
+  split.
+  - apply Nat.div_lt_upper_bound; [exact HP | lia].
+  - apply IH. now apply Nat.mod_upper_bound.
+Qed.
+
+Lemma ravel_unravel shape : forall t, t < prodn shape -> ravel shape (unravel shape t) = t.
+Proof.
+  induction shape as [|d rest IH]; intros t Ht; [cbn in *; lia|].
+  cbn [unravel ravel]. cbn [prodn fold_right] in Ht. fold (prodn rest) in Ht.
+  assert (HP : prodn rest <> 0) by (intros E; rewrite E in Ht; lia).
+  rewrite IH by (now apply Nat.mod_upper_bound). pose proof (Nat.div_mod t (prodn rest) HP). lia.
+Qed.
+
+Lemma unravel_ravel shape : forall idx, valid_idx shape idx ->
+  unravel shape (ravel shape idx) = idx /\ ravel shape idx < prodn shape.
+Proof.
+  induction shape as [|d rest IH]; intros [|i ix] Hv; cbn [valid_idx] in Hv; try contradiction.
+  - cbn. split; [reflexivity | lia].
+  - destruct Hv as [Hi Hv]. destruct (IH ix Hv) as [E B]. cbn [ravel unravel prodn fold_right]. fold (prodn rest).
+    assert (HP : prodn rest <> 0) by lia.
+    assert (D : (i * prodn rest + ravel rest ix) / prodn rest = i).
+    { rewrite Nat.div_add_l by exact HP. rewrite Nat.div_small by exact B. lia. }
+    assert (M : (i * prodn rest + ravel rest ix) mod prodn rest = ravel rest ix).
+    { rewrite Nat.add_comm, Nat.mod_add by exact HP. now apply Nat.mod_small. }
+    rewrite D, M, E. split; [reflexivity | nia].
+Qed.
+
+Lemma valid_length shape : forall idx, valid_idx shape idx -> length idx = length shape.
+Proof. induction shape as [|d rest IH]; intros [|i ix] H; cbn [valid_idx] in H; try contradiction; [reflexivity|]. cbn [length]. f_equal. now apply IH. Qed.
+
+Lemma valid_nth shape : forall idx f, valid_idx shape idx -> f < length shape -> nth f idx 0 < nth f shape 0.
+Proof.
+  induction shape as [|d rest IH]; intros [|i ix] f H Hf; cbn [valid_idx] in H; try contradiction; [cbn in Hf; lia|].
+  destruct H as [Hi Hv]. destruct f as [|f]; [exact Hi|]. cbn [nth]. apply IH; [exact Hv | cbn [length] in Hf; lia].
+Qed.
+
+Lemma valid_set_nth shape : forall idx f v, valid_idx shape idx -> v < nth f shape 0 -> valid_idx shape (set_nth f v idx).
+Proof.
+  induction shape as [|d rest IH]; intros [|i ix] f v H Hv; cbn [valid_idx] in H; try contradiction.
+  - destruct f; cbn in Hv; lia.
+  - destruct H as [Hi Hx]. destruct f as [|f]; cbn [set_nth valid_idx nth] in *; [tauto|]. split; [exact Hi|]. now apply IH.
+Qed.
+
+Lemma matches_length s : forall idx, matches s idx = true -> length s = length idx.
+Proof.
+  induction s as [|[i|] s IH]; intros [|x t] H; cbn [matches] in H; try discriminate; [reflexivity| |].
+  - apply andb_prop in H as [_ H]. cbn [length]. f_equal. now apply IH.
+  - cbn [length]. f_equal. now apply IH.
+Qed.
+
+Lemma first_free_lt s : forall f, first_free s = Some f -> f < length s.
+Proof.
+  induction s as [|[i|] s IH]; intros f H; cbn [first_free] in H; [discriminate| |].
+  - destruct (first_free s) as [f'|]; [|discriminate]. injection H as <-. cbn [length]. specialize (IH f' eq_refl). lia.
+  - injection H as <-. cbn [length]. lia.
+Qed.
+
+Lemma matches_set_nth s : forall f v idx, first_free s = Some f -> matches s (set_nth f v idx) = matches s idx.
+Proof.
+  induction s as [|[i|] s IH]; intros f v idx H; cbn [first_free] in H; [discriminate| |].
+  - destruct (first_free s) as [f'|] eqn:E; [|discriminate]. injection H as <-.
+    destruct idx as [|x t]; [reflexivity|]. cbn [set_nth matches]. now rewrite (IH f' v t eq_refl).
+  - injection H as <-. destruct idx as [|x t]; reflexivity.
+Qed.
+
+Lemma set_nth_inj : forall idx f a b idx', set_nth f a idx = set_nth f b idx' -> f < length idx ->
+  a = b /\ (nth f idx 0 = nth f idx' 0 -> idx = idx').
+Proof.
+  induction idx as [|x t IH]; intros f a b idx' E Hf; [cbn in Hf; lia|].
+  destruct idx' as [|y t'].
+  - destruct f; cbn in E; discriminate.
+  - destruct f as [|f]; cbn [set_nth] in E.
+    + injection E as E1 E2. subst. split; [reflexivity|]. cbn [nth]. now intros ->.
+    + injection E as E1 E2. subst y. cbn [length] in Hf. destruct (IH f a b t' E2 ltac:(lia)) as [Ea Ei].
+      split; [exact Ea|]. cbn [nth]. intros H. now rewrite (Ei H).
+Qed.
+
+Section OneSlice.
+Variables (shape : list nat) (s : list (option nat)) (f : nat) (pm : list nat).
+Hypothesis Hf : first_free s = Some f.
+Hypothesis Hpm : Permutation pm (seq 0 (nth f shape 0)).
+Let N := prodn shape.
+Let sigma := slice_src shape s f pm.
+Let inslice (t : nat) : bool := matches s (unravel shape t).
+
+Lemma pm_bound i : i < nth f shape 0 -> nth i pm 0 < nth f shape 0.
+Proof.
+  intros Hi. assert (L : length pm = nth f shape 0) by (rewrite (Permutation_length Hpm); apply seq_length).
+  assert (In (nth i pm 0) pm) by (apply nth_In; lia). apply (Permutation_in _ Hpm) in H. apply in_seq in H. lia.
+Qed.
+
+Lemma pm_inj i j : i < nth f shape 0 -> j < nth f shape 0 -> nth i pm 0 = nth j pm 0 -> i = j.
+Proof.
+  intros Hi Hj E. assert (L : length pm = nth f shape 0) by (rewrite (Permutation_length Hpm); apply seq_length).
+  assert (ND : NoDup pm) by (eapply Permutation_NoDup; [symmetry; exact Hpm | apply seq_NoDup]).
+  eapply NoDup_nth; eauto; lia.
+Qed.
+
+(** the source position of an in-slice position is in the slice; other positions are fixed *)
+Lemma sigma_in t : t < N -> inslice t = true ->
+  sigma t < N /\ unravel shape (sigma t) = set_nth f (nth (nth f (unravel shape t) 0) pm 0) (unravel shape t)
+  /\ inslice (sigma t) = true.
+Proof.
+  intros Ht Hin. unfold sigma, slice_src, inslice in *. rewrite Hin.
+  pose proof (unravel_valid shape t Ht) as Hv.
+  assert (Lf : f < length shape).
+  { rewrite <- (valid_length _ _ Hv), <- (matches_length _ _ Hin). now apply first_free_lt. }
+  assert (Hv' : valid_idx shape (set_nth f (nth (nth f (unravel shape t) 0) pm 0) (unravel shape t))).
+  { apply valid_set_nth; [exact Hv|]. apply pm_bound. now apply valid_nth. }
+  destruct (unravel_ravel shape _ Hv') as [E B]. split; [exact B|]. split; [exact E|].
+  rewrite E. now rewrite matches_set_nth.
+Qed.
+
+Lemma sigma_out t : inslice t = false -> sigma t = t.
+Proof. intros H. unfold sigma, slice_src, inslice in *. now rewrite H. Qed.
+
+Lemma sigma_status t : t < N -> inslice (sigma t) = inslice t.
+Proof.
+  intros Ht. destruct (inslice t) eqn:E.
+  - now destruct (sigma_in t Ht E) as (_ & _ & H).
+  - now rewrite (sigma_out t E).
+Qed.
+
+Lemma sigma_bound t : t < N -> sigma t < N.
+Proof. intros Ht. destruct (inslice t) eqn:E; [now destruct (sigma_in t Ht E) | now rewrite (sigma_out t E)]. Qed.
+
+Lemma sigma_inj t u : t < N -> u < N -> sigma t = sigma u -> t = u.
+Proof.
+  intros Ht Hu E.
+  assert (St : inslice t = inslice u) by (rewrite <- (sigma_status t Ht), <- (sigma_status u Hu); now rewrite E).
+  destruct (inslice t) eqn:Et.
+  - symmetry in St. destruct (sigma_in t Ht Et) as (_ & E1 & _). destruct (sigma_in u Hu St) as (_ & E2 & _).
+    rewrite E in E1. rewrite E1 in E2.
+    pose proof (unravel_valid shape t Ht) as Vt. pose proof (unravel_valid shape u Hu) as Vu.
+    assert (Lf : f < length shape).
+    { rewrite <- (valid_length _ _ Vt). unfold inslice in Et. rewrite <- (matches_length _ _ Et). now apply first_free_lt. }
+    destruct (set_nth_inj _ _ _ _ _ E2 ltac:(rewrite (valid_length _ _ Vt); exact Lf)) as [Ea Ei].
+    assert (Ef : nth f (unravel shape t) 0 = nth f (unravel shape u) 0).
+    { apply pm_inj; [now apply valid_nth | now apply valid_nth | exact Ea]. }
+    rewrite <- (ravel_unravel shape t Ht), <- (ravel_unravel shape u Hu). now rewrite (Ei Ef).
+  - symmetry in St. now rewrite (sigma_out t Et), (sigma_out u St) in E.
+Qed.
+
+Variable old : list Z.
+Hypothesis Hlen : length old = N.
+
+Lemma apply_slice_length : length (apply_slice shape s f pm old) = length old.
+Proof. unfold apply_slice. now rewrite map_length, seq_length. Qed.
+
+Lemma apply_slice_nth t : t < N -> nth t (apply_slice shape s f pm old) 0%Z = nth (sigma t) old 0%Z.
+Proof.
+  intros Ht. unfold apply_slice. rewrite Hlen.
+  rewrite (nth_indep _ 0%Z (nth (slice_src shape s f pm 0) old 0%Z)) by (now rewrite map_length, seq_length).
+  rewrite (map_nth (fun t => nth (slice_src shape s f pm t) old 0%Z)). now rewrite seq_nth.
+Qed.
+
+(** the whole array is permuted ... *)
+Lemma apply_slice_Permutation : Permutation (apply_slice shape s f pm old) old.
+Proof.
+  unfold apply_slice. apply reindex_Permutation; rewrite Hlen.
+  - exact sigma_bound.
+  - exact sigma_inj.
+Qed.
+
+(** ... positions outside the slice keep their value ... *)
+Lemma apply_slice_outside t : t < N -> inslice t = false -> nth t (apply_slice shape s f pm old) 0%Z = nth t old 0%Z.
+Proof. intros Ht Ho. rewrite apply_slice_nth by exact Ht. now rewrite sigma_out. Qed.
+
+(** ... and the values inside the slice are permuted among themselves *)
+Definition slice_pos (sh : list nat) (s' : list (option nat)) (n : nat) : list nat :=
+  filter (fun t => matches s' (unravel sh t)) (seq 0 n).
+Definition slice_vals (sh : list nat) (s' : list (option nat)) (a : list Z) : list Z :=
+  map (fun t => nth t a 0%Z) (slice_pos sh s' (length a)).
+
+Lemma apply_slice_inside : Permutation (slice_vals shape s (apply_slice shape s f pm old)) (slice_vals shape s old).
+Proof.
+  unfold slice_vals. rewrite apply_slice_length, Hlen.
+  set (pos := slice_pos shape s N).
+  assert (Hpos : forall t, In t pos -> t < N /\ inslice t = true).
+  { intros t Ht. unfold pos, slice_pos in Ht. apply filter_In in Ht as [H1 H2]. apply in_seq in H1. split; [lia | exact H2]. }
+  rewrite (map_ext_in _ (fun t => nth (sigma t) old 0%Z)) by (intros t Ht; apply apply_slice_nth; now apply Hpos).
+  rewrite <- (map_map sigma (fun u => nth u old 0%Z)). apply Permutation_map.
+  apply NoDup_Permutation_bis.
+  - apply NoDup_map_inj_in; [|apply NoDup_filter, seq_NoDup].
+    intros x y Hx Hy. apply sigma_inj; now apply Hpos.
+  - now rewrite map_length.
+  - intros u Hu. apply in_map_iff in Hu as (t & E & Ht). subst u. destruct (Hpos t Ht) as [H1 H2].
+    destruct (sigma_in t H1 H2) as (B & _ & M). unfold pos, slice_pos. apply filter_In. split; [apply in_seq; lia | exact M].
+Qed.
+End OneSlice.
+
+(** two index tuples never select the same position *)
+Definition disj (s s' : list (option nat)) : Prop := forall idx, matches s idx = true -> matches s' idx = false.
+
+Lemma disj_sym s s' : disj s s' -> disj s' s.
+Proof. intros H idx M. destruct (matches s idx) eqn:E; [|reflexivity]. rewrite (H idx E) in M. discriminate. Qed.
+
+Lemma slice_vals_ext shape s a b : length a = length b ->
+  (forall t, t < length a -> matches s (unravel shape t) = true -> nth t a 0%Z = nth t b 0%Z) ->
+  slice_vals shape s a = slice_vals shape s b.
+Proof.
+  intros L H. unfold slice_vals. rewrite <- L. apply map_ext_in. intros t Ht. unfold slice_pos in Ht.
+  apply filter_In in Ht as [H1 H2]. apply in_seq in H1. apply H; [lia | exact H2].
+Qed.
+
+Lemma axis_loop_spec shape : forall ss pms a r,
+  axis_loop shape ss pms a = inr r -> length a = prodn shape ->
+  ForallOrdPairs disj ss -> Forall (fun pm => Permutation pm (seq 0 (length pm))) pms ->
+  length r = length a /\ Permutation r a /\
+  (forall s, In s ss -> Permutation (slice_vals shape s r) (slice_vals shape s a)) /\
+  (forall t, t < length a -> (forall s, In s ss -> matches s (unravel shape t) = false) -> nth t r 0%Z = nth t a 0%Z).
+Proof.
+  induction ss as [|s ss IH]; intros pms a r H La Hd Hp.
+  - cbn [axis_loop] in H. destruct pms; [|discriminate]. injection H as <-.
+    repeat split; [reflexivity | intros s []].
+  - cbn [axis_loop] in H. destruct (first_free s) as [f|] eqn:Ef; [|discriminate].
+    destruct pms as [|pm pms]; [discriminate|]. destruct (Nat.eqb_spec (length pm) (nth f shape 0)) as [Lpm|]; [|discriminate].
+    pose proof (Forall_inv Hp) as Hpm. cbn beta in Hpm. rewrite Lpm in Hpm. pose proof (Forall_inv_tail Hp) as Hp'.
+    inversion Hd as [|? ? Hds Hd']; subst.
+    set (a' := apply_slice shape s f pm a) in *.
+    assert (La' : length a' = length a) by apply apply_slice_length.
+    destruct (IH pms a' r H ltac:(lia) Hd' Hp') as (R1 & R2 & R3 & R4).
+    pose proof (apply_slice_Permutation shape s f pm Ef Hpm a La) as P0.
+    split; [lia|]. split; [now transitivity a'|]. split.
+    + intros s2 [<-|Hin].
+      * (* the slice just shuffled is not touched by the later steps *)
+        rewrite (slice_vals_ext shape s r a').
+        -- apply (apply_slice_inside shape s f pm Ef Hpm a La).
+        -- lia.
+        -- intros t Ht M. rewrite R1 in Ht. apply R4; [exact Ht|]. intros s3 H3.
+           rewrite Forall_forall in Hds. exact (Hds s3 H3 _ M).
+      * rewrite (R3 s2 Hin). rewrite (slice_vals_ext shape s2 a' a); [reflexivity | exact La' |].
+        intros t Ht M. rewrite La' in Ht. apply (apply_slice_outside shape s f pm a La); [lia|].
+        rewrite Forall_forall in Hds. exact (disj_sym _ _ (Hds s2 Hin) _ M).
+    + intros t Ht Hout. rewrite R4; [| lia | intros s3 H3; apply Hout; now right].
+      apply (apply_slice_outside shape s f pm a La); [lia|]. apply Hout. now left.
+Qed.
+
+(** the tuples produced by sliceaxisix are pairwise disjoint and cover every position *)
+Lemma FOP_map {A} (R : A -> A -> Prop) (g : A -> A) l : (forall a b, R a b -> R (g a) (g b)) ->
+  ForallOrdPairs R l -> ForallOrdPairs R (map g l).
+Proof.
+  intros Hg. induction 1 as [|a l Ha _ IH]; cbn [map]; constructor; [|exact IH].
+  apply Forall_forall. intros b Hb. apply in_map_iff in Hb as (b' & <- & Hb'). rewrite Forall_forall in Ha. auto.
+Qed.
+
+Lemma FOP_app {A} (R : A -> A -> Prop) l1 l2 : ForallOrdPairs R l1 -> ForallOrdPairs R l2 ->
+  (forall a b, In a l1 -> In b l2 -> R a b) -> ForallOrdPairs R (l1 ++ l2).
+Proof.
+  intros H1 H2 H12. induction H1 as [|a l Ha _ IH]; [exact H2|]. cbn [app]. constructor.
+  - apply Forall_app. split; [exact Ha|]. apply Forall_forall. intros b Hb. apply H12; [now left | exact Hb].
+  - apply IH. intros x y Hx Hy. apply H12; [now right | exact Hy].
+Qed.
+
+Lemma sax_disjoint shape axis : forall pos, ForallOrdPairs disj (sax pos shape axis).
+Proof.
+  induction shape as [|d rest IH]; intros pos; [cbn; repeat constructor|].
+  cbn [sax]. destruct (zmem (Z.of_nat pos) axis).
+  - (* one block per index i *)
+    assert (G : forall L, NoDup L -> ForallOrdPairs disj (flat_map (fun i => map (cons (Some i)) (sax (S pos) rest axis)) L)).
+    { induction L as [|i L IHL]; intros HL; [constructor|]. inversion HL as [|? ? Hni HL']; subst. cbn [flat_map].
+      apply FOP_app; [|now apply IHL|].
+      - apply FOP_map; [|apply IH]. intros a b Hab [|x t] M; cbn [matches] in *; [discriminate|].
+        apply andb_prop in M as [M1 M2]. rewrite M1. cbn [andb]. now apply Hab.
+      - intros a b Ha Hb. apply in_map_iff in Ha as (a' & <- & _). apply in_flat_map in Hb as (i' & Hi' & Hb).
+        apply in_map_iff in Hb as (b' & <- & _). intros [|x t] M; cbn [matches] in *; [discriminate|].
+        apply andb_prop in M as [M1 _]. apply Nat.eqb_eq in M1. subst x.
+        destruct (Nat.eqb_spec i' i) as [->|]; [contradiction | reflexivity]. }
+    apply G, seq_NoDup.
+  - apply FOP_map; [|apply IH]. intros a b Hab [|x t] M; cbn [matches] in *; [discriminate|]. now apply Hab.
+Qed.
+
+Lemma sax_cover shape axis : forall pos idx, valid_idx shape idx -> exists s, In s (sax pos shape axis) /\ matches s idx = true.
+Proof.
+  induction shape as [|d rest IH]; intros pos [|i ix] Hv; cbn [valid_idx] in Hv; try contradiction.
+  - exists []. split; [now left | reflexivity].
+  - destruct Hv as [Hi Hv]. destruct (IH (S pos) ix Hv) as (s & Hs & M). cbn [sax].
+    destruct (zmem (Z.of_nat pos) axis).
+    + exists (Some i :: s). split.
+      * apply in_flat_map. exists i. split; [apply in_seq; lia | now apply in_map].
+      * cbn [matches]. now rewrite Nat.eqb_refl.
+    + exists (None :: s). split; [now apply in_map | exact M].
+Qed.
+
+(** axis_shuffle: the array is permuted, and for every requested slice (one per combination of indices along the
+    listed axes; the slices partition the array) the values of the slice are permuted among themselves *)
+Theorem axis_shuffle_within_slices shape axis pms a r :
+  axis_shuffle shape axis pms a = inr r -> length a = prodn shape ->
+  Forall (fun pm => Permutation pm (seq 0 (length pm))) pms ->
+  length r = length a /\ Permutation r a /\
+  (forall s, In s (sax 0 shape axis) -> Permutation (slice_vals shape s r) (slice_vals shape s a)) /\
+  (forall t, t < length a -> exists s, In s (sax 0 shape axis) /\ matches s (unravel shape t) = true) /\
+  ForallOrdPairs disj (sax 0 shape axis).
+Proof.
+  intros H La Hp. unfold axis_shuffle, sliceaxisix in H. destruct shape as [|d rest] eqn:Es; [discriminate|]. rewrite <- Es in *.
+  destruct (axis_loop_spec shape _ _ _ _ H La (sax_disjoint shape axis 0) Hp) as (R1 & R2 & R3 & _).
+  repeat split; try assumption.
+  - intros t Ht. apply sax_cover. apply unravel_valid. lia.
+  - apply sax_disjoint.
+Qed.
+
+(** sliceaxisix: one tuple per combination of indices along the listed axes, each of the array's rank *)
+Fixpoint sel_dims (pos : nat) (shape : list nat) (axis : list Z) : list nat :=
+  match shape with
+  | [] => []
+  | d :: rest => if zmem (Z.of_nat pos) axis then d :: sel_dims (S pos) rest axis else sel_dims (S pos) rest axis
+  end.
+
+Lemma flat_map_const_length {A B} (g : A -> list B) (L : list A) n : (forall a, length (g a) = n) -> length (flat_map g L) = length L * n.
+Proof. intros H. induction L as [|a L IH]; [reflexivity|]. cbn [flat_map length]. rewrite app_length, H, IH. lia. Qed.
+
+Lemma sax_shape shape axis : forall pos,
+  length (sax pos shape axis) = prodn (sel_dims pos shape axis) /\
+  Forall (fun s => length s = length shape) (sax pos shape axis).
+Proof.
+  induction shape as [|d rest IH]; intros pos; [cbn; split; [reflexivity | repeat constructor]|].
+  destruct (IH (S pos)) as [L F]. cbn [sax sel_dims]. destruct (zmem (Z.of_nat pos) axis).
+  - split.
+    + rewrite (flat_map_const_length _ _ (length (sax (S pos) rest axis))) by (intros; apply map_length).
+      rewrite seq_length, L. reflexivity.
+    + apply Forall_forall. intros s Hs. apply in_flat_map in Hs as (i & _ & Hs). apply in_map_iff in Hs as (t & <- & Ht).
+      rewrite Forall_forall in F. cbn [length]. now rewrite (F t Ht).
+  - split; [now rewrite map_length|]. apply Forall_forall. intros s Hs. apply in_map_iff in Hs as (t & <- & Ht).
+    rewrite Forall_forall in F. cbn [length]. now rewrite (F t Ht).
 Qed.
